@@ -38,6 +38,9 @@ var _ backoff.BackOff
 //@ invariant 2 [C16.c-integ-len] offset-len(confidentialityAlgorithms) > 3+3*int(cur(joined)[0]&1) ==> len(integrityAlgorithms) == offset-len(confidentialityAlgorithms)-(3+3*int(cur(joined)[0]&1))
 //@ invariant 2 [C16.c-integ-maximal] offset-len(confidentialityAlgorithms) < len(cur(joined)) ==> cur(joined)[offset-len(confidentialityAlgorithms)]>>6 != 1
 //@ invariant 2 [C16.conf-list] forall(qj, 0, len(confidentialityAlgorithms), cur(joined)[offset-len(confidentialityAlgorithms)+qj]>>6 == 2 && uint8(confidentialityAlgorithms[qj]) == cur(joined)[offset-len(confidentialityAlgorithms)+qj]&0x3f)
+// (the entry just appended is: suite, authentication, the current integrity algorithm, the j-th confidentiality algorithm)
+//@ invariant 4 [C16.expand-last] rangeindex >= 0 ==> records[len(records)-1].ConfidentialityAlgorithm == confidentialityAlgorithms[rangeindex] && records[len(records)-1].IntegrityAlgorithm == record.IntegrityAlgorithm &&
+//@    records[len(records)-1].CipherSuiteID == record.CipherSuiteID && records[len(records)-1].AuthenticationAlgorithm == record.AuthenticationAlgorithm && records[len(records)-1].Enterprise == record.Enterprise
 //@ invariant 4 [C16.cross-inner] len(records) == atentry(len(records)) + rangeindex + 1
 //@ invariant 3 [C16.cross-outer] len(records) == atentry(len(records)) + (rangeindex+1)*len(confidentialityAlgorithms)
 //@ ensures [C16.no-partial] result1 != nil ==> isnil(result0)
